@@ -122,11 +122,15 @@ class MultiObjectiveProblem(Problem[P]):
 
     def merge_components(self, components: list[float]) -> float:
         if isinstance(self.minimize, list):
-            return sum(m and -fit or +fit for (fit, m) in zip(components, self.minimize))
+            signed = [m and -fit or +fit for (fit, m) in zip(components, self.minimize)]
         elif isinstance(self.minimize, bool):
-            return sum(-fit if self.minimize else fit for fit in components)
+            signed = [-fit if self.minimize else fit for fit in components]
         else:
             assert False, "minimize must be either a list[bool] or a bool"
+        if float("-inf") in signed:
+            # infinitely bad on one objective is infinitely bad: -inf + inf would be nan, which has no rank at all
+            return float("-inf")
+        return sum(signed)
 
     def evaluate(self, phenotype: P) -> Fitness:
         lst: list[float] = self.ff["ff"](phenotype)
